@@ -23,7 +23,11 @@ class MachineryError(Exception):
 
 class Design:
     """What a harness' build() returns: the DUT and its named input / observed Signals."""
-    def __init__(self, dut, inputs, observes, defaults=None, domain=None):
+    def __init__(self, dut, inputs, observes, defaults=None, domain=None, clocks=None):
+        # clocks: None (every domain ticks on every step) or {domain: (divider, phase)}: the domain ticks on step i
+        # iff i % divider == phase; the fastest domain must have divider 1.  Steps are counted per Cursor from 0, so
+        # multi-clock harnesses must keep every action a multiple of the slowest divider.
+        self.clocks = clocks
         self.dut = dut
         self.inputs = dict(inputs)        # name -> Signal
         self.observes = dict(observes)    # name -> Signal
@@ -56,6 +60,23 @@ class Model:
         self._oaddr = ctypes.addressof(self._obuf)
         self.allclk = (1 << max(1, len(self.comp.clks))) - 1
         self.clk_names = self.comp.clk_names
+        self.clk_domains = [nm[:-4] if nm.endswith("_clk") else ("sync" if nm == "clk" else nm) for nm in self.clk_names]
+        self.clocks = d.clocks
+        if d.clocks:
+            for dom in self.clk_domains:
+                if dom not in d.clocks: raise KeyError(f"no divider given for clock domain {dom}")
+            self._lcm = 1
+            for div, _ in d.clocks.values():
+                a, b = self._lcm, div
+                while b: a, b = b, a % b
+                self._lcm = self._lcm * div // a
+            self._masks = []
+            for i in range(self._lcm):
+                mk = 0
+                for bit, dom in enumerate(self.clk_domains):
+                    div, ph = d.clocks[dom]
+                    if i % div == ph: mk |= 1 << bit
+                self._masks.append(mk)
         self.lib.rtl_reset(self._saddr)
         self.reset_state = self._sbuf.raw
         self.cells = len(self.comp.cells)
@@ -125,6 +146,12 @@ class Cursor:
     def step(self, **kw):
         m = self.model
         v = m.vec(**kw) if kw else tuple(m.default_vec)
+        if m.clocks:
+            mk = m._masks[self.cycles % m._lcm]
+            self.state, o = m.step_vec(self.state, v, mk)
+            self.cycles += 1
+            if self.log is not None: self.log.append((v, tuple(o), mk))
+            return o
         self.state, o = m.step_vec(self.state, v)
         self.cycles += 1
         if self.log is not None: self.log.append((v, tuple(o)))
